@@ -124,8 +124,23 @@ def crash_sig(r, d):
 def oracle(ctx, docs, cfgs, per_doc=2, limit=20.0):
     os.environ["MISTUNE_SRC"] = common.repo_src()
     tasks, meta = [], []
+    by_name = {c["name"]: c for c in cfgs}
     for d in docs:
-        for c in ctx.rng.sample(cfgs, min(per_doc, len(cfgs))):
+        chosen = ctx.rng.sample(cfgs, min(per_doc, len(cfgs)))
+        # a document that uses a directive syntax is also converted by a converter that knows that syntax (HTML and token list)
+        want = []
+        if ".. " in d:
+            want += ["all-rst", "ast-all-rst"]
+        if "```{" in d or "~~~{" in d:
+            want += ["all-fenced", "ast-all-fenced"]
+        if ":::" in d:
+            want += ["all-fenced-colon"]
+        if "# " in d or "\n===" in d or "\n---" in d:
+            want += ["all-tochook"] if ctx.rng.random() < 0.3 else []
+        for nm in want:
+            if nm in by_name and by_name[nm] not in chosen:
+                chosen.append(by_name[nm])
+        for c in chosen:
             tasks.append((c, d, limit)); meta.append((c, d))
     # construction-time failures of every configuration
     res = worker.run_all(tasks)
